@@ -242,6 +242,7 @@ int main(int argc, char **argv) {
         bool per_run = flag(argc, argv, "--per-run");
         unsigned max_report = (unsigned)std::atoi(arg(argc, argv, "--max-report", "20"));
         Stats st; std::set<uint64_t> distinct; uint64_t viols = 0, runs = 0, nt = 0;
+        bool stop_after_violation = false;
         struct timespec t0; clock_gettime(CLOCK_MONOTONIC, &t0);
         for (uint64_t n = 0; n < count; n++) {
             uint64_t i = start + n * stride;
@@ -254,15 +255,18 @@ int main(int argc, char **argv) {
             if (rr.nontrivial) { ++nt; distinct.insert(rr.sig); }
             if (per_run) std::printf("R i=%llu sig=%016llx nt=%d ops=%llu steps=%llu\n", (unsigned long long)i, (unsigned long long)rr.sig, rr.nontrivial ? 1 : 0,
                                      (unsigned long long)rr.ops, (unsigned long long)rr.steps);
-            if (rr.viol.set) { ++viols; if (viols <= max_report) print_viol("V", i, rs, rr); }
+            if (rr.viol.set) { ++viols; print_viol("V", i, rs, rr); stop_after_violation = true; }
             if (max_s > 0 && (n & 63) == 63) {
                 struct timespec t1; clock_gettime(CLOCK_MONOTONIC, &t1);
                 if ((t1.tv_sec - t0.tv_sec) + (t1.tv_nsec - t0.tv_nsec) * 1e-9 > max_s) { ++n; std::printf("T stopped_after=%llu\n", (unsigned long long)n); break; }
             }
+            // a violated run may have corrupted this process (writes through dangling pointers): report and let the supervisor restart us
+            if (stop_after_violation) break;
         }
         print_summary(st, runs, viols, distinct, nt);
         const char *sigfile = arg(argc, argv, "--sigs", nullptr);
         if (sigfile) { std::ofstream f(sigfile, std::ios::binary); for (uint64_t h : distinct) f.write((const char *)&h, 8); }
+        if (stop_after_violation) { std::fflush(stdout); _exit(3); }
         return 0;
     }
     if (cmd == "dump") {
